@@ -154,7 +154,9 @@ class TheoryOracle(walkers.DagWalker):
 
     def get_theory(self, formula: FNode) -> Theory:
         """Returns the theory for the formula."""
-        return self.walk(formula)
+        # The walk returns the memoized object: hand out a copy, so that
+        # a caller modifying the result does not change later answers
+        return self.walk(formula).copy()
 
     def _theory_from_type(self, ty: PySMTType) -> Theory:
         theory = Theory()
